@@ -2,7 +2,7 @@
 From Coq Require Import List NArith ZArith Bool Lia.
 From LTV Require Import Common.Bytes.
 From LTV.C07 Require Import Model.
-From LTV.C08 Require Import Model ProofsOrder ProofsLoad ProofsTok ProofsDecode ProofsTotal.
+From LTV.C08 Require Import Model ProofsOrder ProofsLoad ProofsTok ProofsDecode ProofsTotal ProofsOpen.
 Import ListNotations.
 Local Open Scope N_scope.
 
@@ -178,6 +178,19 @@ Proof.
   destruct (load_inv _ _ _ Hl) as (_ & Fo & _).
   destruct Fo as [_ Fv _ _ _]. rewrite Forall_forall in Fv. destruct (Fv f Hin) as [Hne F].
   rewrite Ef. split; [apply tokens_frozen; assumption | apply no_nul_path; exact F].
+Qed.
+
+(* FileList::open, for ANY root and therefore at EVERY re-open after close + set_root_dir: no
+   storage error (empty name / duplicate frozen path), and the frozen paths are recomputed from the
+   CURRENT root: exactly one, root' ++ "/c1/../ck", per non-padding file, in file order *)
+Theorem open_paths_ok : forall b u d root,
+  load H pol b u = LOk d -> mem_byte 0 (set_root_dir root) = false ->
+  open_paths root d = LOk (map (fr (set_root_dir root)) (filter nonpad (d_files d))).
+Proof.
+  intros b u d root Hl Hz. destruct (load_inv _ _ _ Hl) as (_ & Fo & _).
+  destruct Fo as [_ Fv Hn _ _]. unfold open_paths.
+  rewrite (open_loop_ok (set_root_dir root) (d_files d) Hz Fv Hn [] []); [reflexivity|].
+  intros f _ [].
 Qed.
 
 Theorem no_dup_no_prefix : forall b u d,
